@@ -99,10 +99,23 @@ def kvGet (toks : List String) (key : String) : Option String :=
     | [k, v] => if k = key then some v else none
     | _ => none
 
-def parseOrder (toks : List String) : List Bytes :=
+/-- queue names longer than 64 bytes are printed as `h<fnv64>:<length>` -/
+def nameTok (name : Bytes) : String :=
+  if name.length ≤ 64 then hex name else s!"h{fnvS name}:{name.length}"
+
+/-- the raw `order=` tokens -/
+def orderToks (toks : List String) : List String :=
   match kvGet toks "order" with
-  | some v => if v = "-" then [] else (v.splitOn ",").map unhex
+  | some v => if v = "-" then [] else v.splitOn ","
   | none => []
+
+/-- resolve `order=` tokens against the queue names of a log (long names are given by hash) -/
+def resolveOrder (names : List Bytes) (ts : List String) : List Bytes :=
+  ts.map fun t =>
+    if t.startsWith "h" then (names.find? fun n => nameTok n == t).getD [] else unhex t
+
+def parseOrderIn (qs : MemQueues) (toks : List String) : List Bytes :=
+  resolveOrder (qs.map (·.1)) (orderToks toks)
 
 def parseTick (toks : List String) : Bool := kvGet toks "tick" == some "1"
 
@@ -155,7 +168,7 @@ def stateLines (msz : Nat) (l : Log) : List String :=
     let lr := match q.lastRecord with
       | some p => recS p
       | none => "-"
-    s!"S q={hex name} start={q.start} next={q.nextPosition} last={optS q.lastPosition} ff={optS q.firstFile} lr={lr} n={q.recs.length} recs={joinS "," recs}"
+    s!"S q={nameTok name} start={q.start} next={q.nextPosition} last={optS q.lastPosition} ff={optS q.firstFile} lr={lr} n={q.recs.length} recs={joinS "," recs}"
   ql ++ [s!"F files={joinS "," (l.files.map toString)} disk={l.diskUsed geom}", s!"U used={l.queues.usedBytes msz}"]
 
 def dirLine (img : Image) : String :=
@@ -171,7 +184,10 @@ def openOn (st : St) (img : Image) (toks : List String) (failAt : Option Nat) : 
   let policy := parsePolicy (toks.getD 1 "always:flush")
   -- the panic-instrumented twin decides first whether the checked u64 arithmetic of the real
   -- code would overflow during this recovery
-  match recoverP geom img policy (parseOrder toks) failAt with
+  let order := match recoverPre geom img policy failAt with
+    | .ok (lp, _, _) => parseOrderIn lp.queues toks
+    | .error _ => []
+  match recoverP geom img policy order failAt with
   | .error () => ({ st with log := none, disk := img, pending := [], buf := {} }, ["O PANIC"])
   | .ok res =>
   match res with
@@ -180,7 +196,7 @@ def openOn (st : St) (img : Image) (toks : List String) (failAt : Option Nat) : 
   | .ok r =>
     -- journal: the GC pass of `open` may have written empty-queue positions
     let j := match recoverPre geom img policy failAt with
-      | .ok (lp, _, _) => st.journal ++ lp.gcJ geom (parseOrder toks)
+      | .ok (lp, _, _) => st.journal ++ lp.gcJ geom order
       | .error _ => st.journal
     let ok := st.journalOk && jcheck r.log j
     let st1 : St := { st with log := some r.log, disk := img, pending := [], buf := {}, journal := j, journalOk := ok }
@@ -254,8 +270,11 @@ def runOp (msz : Nat) (jc : Bool) (st : St) (toks : List String) : St × List St
   | _ =>
     match callOf toks, st.log with
     | some c, some l =>
-      let (l', out, es) := l.step geom c (parseTick toks) (parseOrder toks)
-      let j := st.journal ++ l.stepJ geom c (parseOrder toks)
+      -- the GC visits the queues that are empty after the call: resolve hashes against all names
+      let names := l.queues.map (·.1)
+      let order := resolveOrder names (orderToks toks)
+      let (l', out, es) := l.step geom c (parseTick toks) order
+      let j := st.journal ++ l.stepJ geom c order
       let ok := st.journalOk && jcheck l' j
       let st1 := { st with log := some l', journal := j, journalOk := ok }
       (st1.absorb es, [outcomeS out, effLine es] ++ (if st.journalOk && !ok then ["J journal-invariant-broken"] else []))
@@ -333,7 +352,7 @@ def runCrash (top : Top) (toks : List String) : Top × List String :=
     | none => []
   let img1 := img0.filter fun kv => !dropL.contains kv.1
   let img := zeroL.foldl (fun im (fo : Nat × Nat) => mapFile im fo.1 fun c => c.take fo.2 ++ zeros (c.length - fo.2)) img1
-  let (side, out) := openOn {} img (toks.drop 2) none
+  let (side, out) := openOn {} img (toks.drop 2) ((kvGet toks "fail").bind (·.toNat?))
   ({ top with main := main', side := side }, dirLine img :: out)
 
 def runLine (top : Top) (line : String) : Top × List String :=
